@@ -152,6 +152,43 @@ def check_oracle_hypotheses(ctx, cases):
     ctx.extra['oracle_hypotheses_failed'] = bad
 
 
+def check_regex_model(ctx, cases, limit=4000):
+    """the model's own reading of the expression TEXT (Rexpy/Regex.v: parser + matcher) against CPython re, on every
+    (expression, string) pair that the real runs evaluated, plus every returned expression against every example"""
+    if not ctx.model_ok:
+        return
+    import re
+    by_pat = {}
+    for (case, arg, opts, size, x, rec) in cases:
+        for (p, s), b in rec.matches.items():
+            by_pat.setdefault(p, {})[s] = bool(b)
+        if x.results is not None:
+            strings = [s for s in (arg.keys() if isinstance(arg, dict) else arg) if s is not None]
+            for p in x.results.rex:
+                for s in strings[:12]:
+                    try:
+                        by_pat.setdefault(p, {}).setdefault(s, bool(re.match(p, s, re.UNICODE | re.DOTALL)))
+                    except re.error:
+                        pass
+    pats = sorted(by_pat)[:limit]
+    outs = ctx.model.call_many(30, [[p, list(by_pat[p])] for p in pats])
+    n_in = n_out = n_pairs = bad = 0
+    for p, o in zip(pats, outs):
+        if o == [2] or o == '!stack' or not isinstance(o, list):
+            n_out += 1
+            continue
+        n_in += 1
+        for s, got in zip(by_pat[p], o):
+            n_pairs += 1
+            if got == 2 or bool(got) != by_pat[p][s]:
+                bad += 1
+                if bad <= 5:
+                    ctx.mismatch('regex-text-model', {'expression': p, 'string': s}, got, by_pat[p][s])
+    ctx.extra['regex_text_model'] = {'expressions_in_fragment': n_in, 'outside_fragment(extra letters / alternation)': n_out,
+                                     'pairs_compared': n_pairs, 'disagreements': bad}
+    ctx.cov['evaluations'] += n_pairs
+
+
 def decode_model(out):
     """(0 (none rex strings freqs passes samples_left last_failures)) | (err)"""
     from lib import dstrs
